@@ -387,6 +387,32 @@ PROPS = {
         "rule": "cases = transitions of the bounded TLC instance replayed against the contracts; distinct = distinct (abstract pre-state, action) pairs",
         "assumptions": ["soroban-env-host test mode implements on-chain semantics", "the harness's own ABI codec is cross-validated against Abi.tla by the C10 check"],
     },
+    "C06": {
+        "title": "Admin operations need the current role holder's authorisation",
+        "policy": {"guards": ["role_auth", "operator_auth", "collector_auth", "upgrade_auth", "migrate_auth"],
+                   "fields": ["owner", "operator", "collector"],
+                   "events": ["ownership_transferred", "operatorship_transferred"], "rets": []},
+        "jobs": [
+            {"kind": "graph", "spec": "MC_C06_gateway", "module": "Gateway", "evkinds": GW_EVENTS,
+             "need": ["TransferOwnership/ok", "TransferOwnership/role_auth", "TransferOperatorship/ok", "TransferOperatorship/role_auth",
+                      "RotateSigners/ok", "RotateSigners/operator_auth"]},
+            {"kind": "graph", "spec": "MC_C06_gas", "module": "GasService", "evkinds": ["gas_collected", "gas_refunded", "ownership_transferred"],
+             "need": ["CollectFees/ok", "CollectFees/collector_auth", "Refund/ok", "Refund/collector_auth", "TransferOwnership/ok", "TransferOwnership/role_auth"]},
+            {"kind": "graph", "spec": "MC_C06_ops", "module": "Operators", "evkinds": ["operator_added", "operator_removed", "ownership_transferred"],
+             "need": ["AddOperator/ok", "AddOperator/role_auth", "RemoveOperator/ok", "RemoveOperator/role_auth", "TransferOwnership/ok", "TransferOwnership/role_auth"]},
+            {"kind": "graph", "spec": "MC_C06_token", "module": "Token", "evkinds": TOKEN_EVENTS,
+             "need": ["AddMinter/ok", "AddMinter/role_auth", "RemoveMinter/ok", "RemoveMinter/role_auth", "Mint/ok", "Mint/role_auth", "TransferOwnership/ok", "TransferOwnership/role_auth"]},
+            {"kind": "graph", "spec": "MC_C06_its", "module": "ITS", "evkinds": ITS_EVENTS,
+             "need": ["SetTrusted/ok", "SetTrusted/role_auth", "RemoveTrusted/ok", "RemoveTrusted/role_auth", "TransferOwnership/ok", "TransferOwnership/role_auth"]},
+        ] + [
+            {"kind": "graph", "spec": "MC_C15", "cfg": "MC_C15_%s" % t, "module": "Upgrade", "evkinds": ["upgraded", "ownership_transferred"],
+             "need": ["Upgrade/ok", "Upgrade/role_auth", "Migrate/ok", "Migrate/role_auth", "UpgraderUpgrade/upgrade_auth", "UpgraderUpgrade/migrate_auth", "TransferOwnership/ok"]}
+            for t in ["gateway", "gas", "operators", "its", "token"]
+        ],
+        "level_text": "TLC proves 'succeeds only with the current holder among the authorisers; the role moves only by the holder's transfer and then belongs to the named successor; refused calls change nothing' on every transition of ten finite instances (gateway, gas service, operators, token, token service; upgrade / migrate / Upgrader on each of the five production contracts): every administrative entry point x every principal as sole authoriser (current holder, former holder, holder of another role, beneficiary, stranger) and nobody x every role-transfer history over three addresses. All transitions are executed against the real contracts with exactly the stated principal's authorisation entry installed.",
+        "rule": "cases = transitions of the bounded TLC instances replayed against the contracts; distinct = distinct (role state, entry point, authoriser) tuples",
+        "assumptions": ["soroban-env-host test mode implements require_auth as on chain; an authorisation entry is installed only for the named principal and only for the exact call tree"],
+    },
 }
 
 NOT_YET = {}
